@@ -174,7 +174,13 @@ def build(unit, strict=True, mutate=None, pid=None, degrade=(), extras=()):
             c = [x for x in source_items(rel) if x.name == name and not _is_cfg_test(x)]
             if not c: raise LostAnchor("lost-anchor: `%s` not found in %s" % (name, rel))
             cur = RW.apply(c[0].toks, rules, b.rewrites)
-            _emit(b, chunks, render(cur) + "\n", name, True, {"file": rel, "src_line": c[0].toks[0].line})
+            pre = ""
+            if len(s.arg) > 2 and s.arg[2] == "external_body":
+                # the item's value is hidden from the solver (a 16k-entry table as a definitional axiom makes Z3 hang);
+                # facts about its entries must then come from elsewhere (ground evaluation), they are not assumed here
+                pre = "#[verifier::external_body]\n"
+                b.stubs.append({"fn": "const " + name, "status": "value hidden from the solver (external_body const); nothing is assumed about it"})
+            _emit(b, chunks, pre + render(cur) + "\n", name, True, {"file": rel, "src_line": c[0].toks[0].line})
         elif s.kind == "stub-trait":
             txt, infos = make_trait_stub(s.arg[0], s.arg[1], strict, pid)
             b.stubs += infos
